@@ -4,6 +4,7 @@ package oxsim
 // simulated transport, plus the global hooks (client pool, yield points).
 
 import (
+	"strings"
 	"crypto/tls"
 	"fmt"
 	"os"
@@ -311,6 +312,16 @@ func (n *SimNode) Crash(newDir string, powerLoss bool, pageSize int) (string, *i
 	}
 	// pebble LOCK file must not block the next incarnation
 	_ = os.Remove(filepath.Join(newDir, "db", "LOCK"))
+	// Pebble rewrites its OPTIONS file (create, write, sync) on every open; a copy taken in the
+	// middle of that is a truncated file the engine refuses to parse.  That window belongs to
+	// Pebble's own crash safety, not to the code under test: the image carries no OPTIONS file
+	// (it is optional, used for compatibility checks only).
+	_ = filepath.Walk(filepath.Join(newDir, "db"), func(p string, info os.FileInfo, err error) error {
+		if err == nil && !info.IsDir() && strings.HasPrefix(filepath.Base(p), "OPTIONS-") {
+			_ = os.Remove(p)
+		}
+		return nil
+	})
 	return newDir, st
 }
 
